@@ -164,7 +164,10 @@ def run(prog: Program) -> Results:
     for name, ws in sorted(writers.items()):
         allowed, reason = STATE_WRITERS.get(name, (set(), None))
         for f, n, what in ws:
-            ok = f.key in allowed
+            # a helper without a reviewed role that only the listed writers name (a callback moved out of its closure, a step
+            # extracted from a writer) writes on their behalf
+            rk = prog.reviewed_key(f.key)
+            ok = f.key in allowed or rk in allowed or any(rk == a.split(".<")[0] for a in allowed if ".<" in a)
             r2.ob(ok, {"state": name, "writer": f.key, "write": what, "confinement": reason})
             if not ok:
                 res.add("R-C15-2", (name, "written by", f.key), f.loc(n),
